@@ -136,6 +136,9 @@ def gen_cases(ctx):
         for j in range(j0, j0 + n_rand):
             combo = P.COMBOS[j % 7]
             nw = 1 + (j // 7) % 9
+            if j % 29 == 28:
+                # many workers: more merge pairs in a round than cores, several odd rounds, counts such as 6, 10..20, 34+
+                nw = [10, 11, 12, 14, 17, 18, 19, 20, 33, 34, 40][(j // 29) % 11]
             n_items = int(rng.integers(0 if j % 50 == 49 else 1, 9))
             sched = {w: [] for w in range(nw)}
             order = rng.permutation(n_items).tolist()
@@ -159,7 +162,7 @@ def gen_cases(ctx):
     if q:
         yield from exhaustive(3, 2)
         yield from exhaustive(4, 3)
-        yield from random_runs(260)
+        yield from random_runs(320)
         return
     # thorough: breadth first (every combination and worker count on every shard), then the exhaustive bounds as time permits
     yield from random_runs(189)
@@ -200,6 +203,7 @@ def floors(mon, ctx):
         mon.floor("exhaustive schedules 4 items x 3 workers", mon.counters["exhaustive_schedules:4x3"], 360)
     mon.floor("sketch combinations", len(mon.classes["combo"]), 7)
     mon.floor("worker counts", len(mon.classes["n_workers"]), 9)
+    mon.floor("runs with 10..40 workers", len([x for x in mon.classes["n_workers"] if x >= 10]), 5)
     mon.floor("runs with an odd worker count", mon.counters["runs_with_odd_worker_count"], 10)
     mon.floor("runs with generator items", mon.counters["runs_with_generator_items"], 10)
     mon.floor("item kinds x (list, generator)", len(mon.classes["item_kind"]), 8)
